@@ -1,5 +1,6 @@
 # gdb -batch -x tools/asmtrace.py --args <asmdrv> <n>   (env ASMTRACE_OUT=<json>)
-# Single-steps every call of field.feMul / field.feSquare to its RET and
+# Single-steps every call of the assembly routines of package field (names in
+# ASMTRACE_FUNCS, found by ./check with go tool nm) to its RET and
 # records (pc - function start, mnemonic, effective address of every memory
 # operand). All calls of one function must give the identical trace.
 import gdb, json, os, re, hashlib
@@ -10,7 +11,7 @@ gdb.execute("handle SIGURG nostop noprint pass")
 gdb.execute("set environment GODEBUG=asyncpreemptoff=1")
 gdb.execute("set environment GOMAXPROCS=1")
 
-FUNCS = ["filippo.io/edwards25519/field.feMul", "filippo.io/edwards25519/field.feSquare"]
+FUNCS = [f for f in os.environ.get("ASMTRACE_FUNCS", "filippo.io/edwards25519/field.feMul,filippo.io/edwards25519/field.feSquare").split(",") if f]
 res = {}
 MEM = re.compile(r'(-?0x[0-9a-f]+|-?\d+)?\(%(\w+)(?:,%(\w+),(\d))?\)')
 
